@@ -11,6 +11,7 @@ Record obs := { b_ok : bool; b_infos : state; b_log : list (nat * hook) }.
 
 Record case := {
   c_k : nat;                     (* number of recording hooks registered in the MultiEpochHooks *)
+  c_fail : trigger * nat;        (* the failing receiver panics on this call, the first n times (n = 0: never) *)
   c_init : state;                (* EpochInfos at the start of the case (observed) *)
   c_tr : list (op * obs)
 }.
@@ -40,7 +41,7 @@ Fixpoint outs_match (k : nat) (ms : list out) (os : list obs) : bool :=
   end.
 
 Definition mismatch (c : case) : bool :=
-  negb (outs_match (c_k c) (snd (run (c_init c) (map fst (c_tr c)))) (map snd (c_tr c))).
+  negb (outs_match (c_k c) (snd (run_f (fst (c_fail c)) (c_init c, snd (c_fail c)) (map fst (c_tr c)))) (map snd (c_tr c))).
 
 (** precondition under which the property is claimed: well-formed definitions (counting not
     started => epoch 0; started => StartTime <= CurrentEpochStartTime <= now) and non-decreasing
